@@ -349,10 +349,16 @@ func Resolve(p *an.Prog) *Anchors {
 	if a.MethodTable == nil {
 		an.Fatalf("UNRESOLVED anchor: method table")
 	}
-	if a.IndexBuilder == nil && a.NodeSummaryBuilder != nil && a.TreeSummaryBuilder != nil && a.MemoBuilder != nil {
+	if a.NodeSummaryBuilder == nil && a.TreeSummaryBuilder != nil && a.MemoBuilder != nil {
+		// no node method recomputes the summary from the handler map (it may be kept incrementally, or by a helper of
+		// another shape): the summary rules report what they then cannot establish
+		a.Missing = append(a.Missing, "node summary builder (no node method stores node."+a.FSummary+" from a range over the handler map)")
+	}
+	if a.IndexBuilder == nil && a.TreeSummaryBuilder != nil && a.MemoBuilder != nil {
 		// no function fills the first-byte index (its field may be unresolved): the index rules report that
 		a.Missing = append(a.Missing, "index builder (no function rebuilds node."+a.FIndexes+")")
-	} else if a.IndexBuilder == nil || a.NodeSummaryBuilder == nil || a.TreeSummaryBuilder == nil || a.MemoBuilder == nil {
+	}
+	if a.TreeSummaryBuilder == nil || a.MemoBuilder == nil {
 		an.Fatalf("UNRESOLVED anchor: builders index=%v nodeSummary=%v treeSummary=%v memo=%v", a.IndexBuilder, a.NodeSummaryBuilder, a.TreeSummaryBuilder, a.MemoBuilder)
 	}
 
@@ -482,7 +488,9 @@ func (a *Anchors) Describe(r *an.Report) {
 	if a.IndexBuilder != nil {
 		r.Anchor("indexBuilder", an.FuncKey(a.IndexBuilder)+" ("+p.Pos(a.IndexBuilder.Pos())+")")
 	}
-	r.Anchor("nodeSummaryBuilder", an.FuncKey(a.NodeSummaryBuilder)+" ("+p.Pos(a.NodeSummaryBuilder.Pos())+")")
+	if a.NodeSummaryBuilder != nil {
+		r.Anchor("nodeSummaryBuilder", an.FuncKey(a.NodeSummaryBuilder)+" ("+p.Pos(a.NodeSummaryBuilder.Pos())+")")
+	}
 	r.Anchor("treeSummaryBuilder", an.FuncKey(a.TreeSummaryBuilder)+" ("+p.Pos(a.TreeSummaryBuilder.Pos())+")")
 	r.Anchor("memoBuilder", an.FuncKey(a.MemoBuilder))
 	r.Anchor("segmentMatcher", an.FuncKey(a.SegmentMatch)+" ("+p.Pos(a.SegmentMatch.Pos())+")")
